@@ -26,10 +26,10 @@ def Obs.isOk : Obs → Bool
 def u32Max : Nat := 4294967295
 
 def isMediaRunName (n : Bytes) : Bool :=
-  n = nm "mdat" ∨ n = nm "free" ∨ n = nm "skip" ∨ n = nm "meta" ∨ n = nm "meco"
+  n = (cc 'm' 'd' 'a' 't') ∨ n = (cc 'f' 'r' 'e' 'e') ∨ n = (cc 's' 'k' 'i' 'p') ∨ n = (cc 'm' 'e' 't' 'a') ∨ n = (cc 'm' 'e' 'c' 'o')
 
 def isKnownTop (n : Bytes) : Bool :=
-  n = nm "ftyp" ∨ n = nm "moov" ∨ isMediaRunName n
+  n = (cc 'f' 't' 'y' 'p') ∨ n = (cc 'm' 'o' 'o' 'v') ∨ isMediaRunName n
 
 def top (s : Stream) (c : Cfg) : Walk := walkAll s 0 s.len c.cumulativeMdatBoxSize
 
@@ -38,7 +38,7 @@ def brands (s : Stream) (b : TopBox) : List Bytes :=
   (List.range ((b.payloadLen - 8) / 4)).map fun i => s.read (b.payloadOff + 8 + 4 * i) 4
 
 def ftypOk (s : Stream) (b : TopBox) : Bool :=
-  8 ≤ b.payloadLen ∧ b.payloadLen ≤ 1024 ∧ (brands s b).any (· = nm "isom")
+  8 ≤ b.payloadLen ∧ b.payloadLen ≤ 1024 ∧ (brands s b).any (· = (cc 'i' 's' 'o' 'm'))
 
 def moovOk (s : Stream) (c : Cfg) (b : TopBox) : Bool :=
   decide (b.payloadLen ≤ c.maxMetadataSize) &&
@@ -48,23 +48,23 @@ def moovOk (s : Stream) (c : Cfg) (b : TopBox) : Bool :=
 
 /-- the maximal run of mdat/free/skip/meta/meco boxes starting at the first mdat -/
 def mediaRun (bs : List TopBox) : List TopBox :=
-  (bs.dropWhile (·.name ≠ nm "mdat")).takeWhile (fun b => isMediaRunName b.name)
+  (bs.dropWhile (·.name ≠ (cc 'm' 'd' 'a' 't'))).takeWhile (fun b => isMediaRunName b.name)
 
-def firstMdat (bs : List TopBox) : Option TopBox := bs.find? (·.name = nm "mdat")
-def lastMoov (bs : List TopBox) : Option TopBox := (bs.filter (·.name = nm "moov")).getLast?
+def firstMdat (bs : List TopBox) : Option TopBox := bs.find? (·.name = (cc 'm' 'd' 'a' 't'))
+def lastMoov (bs : List TopBox) : Option TopBox := (bs.filter (·.name = (cc 'm' 'o' 'o' 'v'))).getLast?
 
 /-- the documented structural rules (C05), minus the overflow clause -/
 def Rules (s : Stream) (c : Cfg) : Bool :=
   let w := top s c
   let bs := w.boxes
-  let lead := bs.takeWhile (fun b => b.name = nm "free" ∨ b.name = nm "skip")
-  let ftyps := bs.filter (·.name = nm "ftyp")
-  let moovs := bs.filter (·.name = nm "moov")
-  let mdats := bs.filter (·.name = nm "mdat")
+  let lead := bs.takeWhile (fun b => b.name = (cc 'f' 'r' 'e' 'e') ∨ b.name = (cc 's' 'k' 'i' 'p'))
+  let ftyps := bs.filter (·.name = (cc 'f' 't' 'y' 'p'))
+  let moovs := bs.filter (·.name = (cc 'm' 'o' 'o' 'v'))
+  let mdats := bs.filter (·.name = (cc 'm' 'd' 'a' 't'))
   w.isClean &&
   -- only free/skip precede the single ftyp
   (match bs.drop lead.length with
-    | b :: _ => decide (b.name = nm "ftyp") && ftypOk s b
+    | b :: _ => decide (b.name = (cc 'f' 't' 'y' 'p')) && ftypOk s b
     | [] => false) &&
   decide (ftyps.length = 1) &&
   bs.all (fun b => isKnownTop b.name) &&
@@ -88,7 +88,7 @@ def metadataLen (f m : TopBox) : Nat :=
 /-- the shift applied to chunk offsets when a rewrite happens: `none` when padding makes it unnecessary -/
 def neededShift (s : Stream) (c : Cfg) : Option Int :=
   let bs := (top s c).boxes
-  match bs.find? (·.name = nm "ftyp"), lastMoov bs, firstMdat bs with
+  match bs.find? (·.name = (cc 'f' 't' 'y' 'p')), lastMoov bs, firstMdat bs with
   | some f, some m, some d =>
     let ml := metadataLen f m
     if ml ≤ d.offset then
@@ -142,7 +142,7 @@ def Spec_C03 (s : Stream) (c : Cfg) (o : Obs) : Option String :=
           | none => some "empty-run"
           | some l =>
             if off + len ≠ l.endOff then some "span-does-not-end-with-media-run"
-            else if ¬ (bs.filter (·.name = nm "mdat")).all (fun m => off ≤ m.offset ∧ m.endOff ≤ off + len) then
+            else if ¬ (bs.filter (·.name = (cc 'm' 'd' 'a' 't'))).all (fun m => off ≤ m.offset ∧ m.endOff ≤ off + len) then
               some "mdat-outside-span"
             else none
   match o with
@@ -180,7 +180,7 @@ def Spec_C04 (s : Stream) (c : Cfg) (o : Obs) : Option String :=
   | .rewritten md _ _ =>
     let bs := (top s c).boxes
     let mbs := (mdTop md).boxes
-    match bs.find? (·.name = nm "ftyp"), mbs.find? (·.name = nm "ftyp"), lastMoov bs, lastMoov mbs with
+    match bs.find? (·.name = (cc 'f' 't' 'y' 'p')), mbs.find? (·.name = (cc 'f' 't' 'y' 'p')), lastMoov bs, lastMoov mbs with
     | some f, some f', some m, some m' =>
       if s.read f.payloadOff f.payloadLen ≠ md.read f'.payloadOff f'.payloadLen then some "ftyp-payload-changed"
       else if m.payloadLen ≠ m'.payloadLen then some "moov-payload-length-changed"
@@ -202,9 +202,9 @@ def Spec_C02_structure (o : Obs) : Option String :=
     | .clean bs =>
       if ¬ bs.all (·.sized) then some "until-eof-size-in-metadata"
       else match bs.map (·.name) with
-        | [a, b] => if a = nm "ftyp" ∧ b = nm "moov" then none else some "metadata-box-types"
+        | [a, b] => if a = (cc 'f' 't' 'y' 'p') ∧ b = (cc 'm' 'o' 'o' 'v') then none else some "metadata-box-types"
         | [a, b, c] =>
-          if a = nm "ftyp" ∧ b = nm "moov" ∧ c = nm "free" then
+          if a = (cc 'f' 't' 'y' 'p') ∧ b = (cc 'm' 'o' 'o' 'v') ∧ c = (cc 'f' 'r' 'e' 'e') then
             match bs.getLast? with
             | some fr => if (List.range (min fr.payloadLen 4096)).all (fun i => md.get (fr.payloadOff + i) = 0) then none
                          else some "padding-not-zero"
